@@ -110,7 +110,7 @@ func genStringText(rng *rand.Rand, maxLen int) string {
 	n := rng.Intn(maxLen)
 	var sb strings.Builder
 	sb.WriteByte(quote)
-	pool := []rune{'a', 'b', ' ', '\'', '"', '\\', '\n', '\r', '\t', 0, 8, 12, 11, '1', 'n', 'x', 'u', 'f', 'é', '中', '\u2028', '\u0085', 'Z', '0', '7', '~', '\U0001F600'}
+	pool := []rune{'a', 'b', ' ', '\'', '"', '\\', '\n', '\r', '\t', 0, 8, 12, 11, '1', 'n', 'x', 'u', 'f', 'é', '中', '静', '￥', '\ue000', '\u2028', '\u0085', 'Z', '0', '7', '~', '\U0001F600'}
 	for i := 0; i < n; i++ {
 		c := pool[rng.Intn(len(pool))]
 		simple := map[rune]string{'\'': "\\'", '"': "\\\"", '\\': "\\\\", '\n': "\\n", '\r': "\\r", '\t': "\\t", 8: "\\b", 12: "\\f", 11: "\\v", 0: "\\0"}
